@@ -342,6 +342,50 @@ class Store(object):
         self.probe("imm-close" + ("" if all(sh["mask"]) else "-partial"))
         self.check_alloc_size()
 
+    def op_failclose(self, wsel, what, then):
+        """The final move of close() hits a file-system error (EIO); the client then aborts or loses its connection.
+        The upload was not completed: nothing of it may stay behind, and its reservation is released."""
+        wid, w = self._writer(wsel)
+        if w is None or w["closed"]:
+            return
+        import errno
+        orig = getattr(fileutil, what)
+        fired = []
+
+        def failing(*a, **kw):
+            if not fired:
+                fired.append(1)
+                raise OSError(errno.EIO, "injected I/O error in %s" % what)
+            return orig(*a, **kw)
+        setattr(fileutil, what, failing)
+        try:
+            try:
+                w["w"].remote_close()
+                raised = False
+            except OSError:
+                raised = True
+        finally:
+            setattr(fileutil, what, orig)
+        if not raised:
+            # (make_dirs is not reached when the bucket directory already exists, etc.): an ordinary close
+            w["closed"] = True
+            self.imm[w["key"]]["state"] = "final"
+            self.probe("imm-close")
+            self.check_alloc_size()
+            return
+        self.probe("imm-close-io-error")
+        if then == "abort":
+            w["w"].remote_abort()
+            self._gone(wid, w, "abort-after-failed-close")
+        else:
+            c = self.conns.get(w["conn"])
+            if c is not None:
+                c.disconnect()
+                for wid2, w2 in sorted(self.writers.items()):
+                    if w2["conn"] == w["conn"] and not w2["closed"]:
+                        self._gone(wid2, w2, "disconnect")
+        self.check_alloc_size()
+
     def _gone(self, wid, w, why):
         w["closed"] = True
         key = w["key"]
@@ -742,6 +786,9 @@ def gen_case(seed, tier, profile):
             return ["write", ch.randrange(W, ("w", i), 64), ch.randrange(W, ("off", i), 1200),
                     ch.pick(W, ("len", i), [0, 1, 3, 10, 50, 64, 100, 300, 1000]), pat]
         if k in ("close", "abort"):
+            if k == "close" and ch.chance(W, ("ioerr", i), 0.12):
+                return ["failclose", ch.randrange(W, ("w", i), 64), ch.pick(W, ("iowhat", i), ["rename", "rename", "make_dirs"]),
+                        ch.pick(W, ("iothen", i), ["abort", "disconnect"])]
             return [k, ch.randrange(W, ("w", i), 64)]
         if k == "disconnect":
             return ["disconnect", ch.randrange(W, ("conn", i), 2)]
